@@ -24,6 +24,12 @@ const (
 	maxClockSkew = 900 * time.Second
 )
 
+// cachedRevocationStatus is the cache value, validUntil is the absolute end of life of the ocsp response
+type cachedRevocationStatus struct {
+	revocationStatus core.RevocationStatus
+	validUntil       time.Time
+}
+
 type OCSPRevocationChecker struct {
 	ocspConfig *config.OCSPConfig
 	logger     *zap.Logger
@@ -82,7 +88,7 @@ func (c *OCSPRevocationChecker) IsRevoked(clientCertificate *x509.Certificate, v
 			}
 			evictionTime := c.calculateEvictionTime(ocspResponse)
 			if evictionTime > 0 {
-				c.cache.Add(cacheKey, evictionTime, revocationStatus)
+				c.cache.Add(cacheKey, evictionTime, cachedRevocationStatus{revocationStatus, time.Now().Add(evictionTime)})
 			}
 			return &revocationStatus, nil
 		}
@@ -224,7 +230,13 @@ func (c *OCSPRevocationChecker) tryGetResponseFromCache(cacheKey string) (*core.
 	// Let's retrieve the item from the cache.
 	res, err := c.cache.Value(cacheKey)
 	if err == nil {
-		response := res.Data().(core.RevocationStatus)
+		cached := res.Data().(cachedRevocationStatus)
+		if time.Now().After(cached.validUntil) {
+			//the cache renews the life span of an entry on every access, the response itself does not live longer by being read
+			_, _ = c.cache.Delete(cacheKey)
+			return nil, errors.New("cached ocsp response is expired")
+		}
+		response := cached.revocationStatus
 		return &response, nil
 	} else {
 		return nil, err
